@@ -163,6 +163,23 @@ def xrunFix (mask : Nat) : XState → List Tid → Option XState
 
 def xAllBlockedF (x : XState) : Bool := (List.range x.s.nthreads).all (fun t => !xenabledF x t)
 
+/-- TAIL RULE of the unrepaired failure branch (what the driver replays at the end of such a run): the join loop of `~ThreadPool`
+    meets the context of a refused thread; `Thread::join` of a never-started thread returns at once (`if(!thread) return 0;`),
+    no scheduling point.  Not a step of `Model.lean` (there the destructor would wait for the thread). -/
+def xpass (x : XState) (t : Tid) : Option XState :=
+  match x.s.threads t, x.s.pool with
+  | some th, some p =>
+    match th.stack with
+    | .dJoin i :: _ =>
+      match p.ctxs[i]? with
+      | some { tid := some w, .. } =>
+        if x.dead.contains w then
+          some { x with s := setThread x.s t (th.cont [if i + 1 < p.ctxs.length then .dJoin (i + 1) else .dFin]) }
+        else none
+      | _ => none
+    | _ => none
+  | _, _ => none
+
 /-- no thread that exists can take a step -/
 def xAllBlocked (x : XState) : Bool := (List.range x.s.nthreads).all (fun t => !xenabled x t)
 
